@@ -132,11 +132,20 @@ ExtAgrees(e) ==
          ELSE LET r == MCompose(m, e.fs) IN e.panic = "" /\ (e.err # "") = r.err /\ SameRows(e.kind, e.res, r.m.rows)
     [] OTHER -> FALSE
 
+\* Extension: the sequtils calls on quality vectors (seq/quality.Phred, Solexa), letters 0 in every cell.  They
+\* cannot reverse a segment (no RevComp), so Compose with a reverse-oriented feature is an error; Reverse keeps
+\* the offset.
+QCallAgrees(e) ==
+  IF e.op = "reverse" THEN e.panic = "" /\ e.err = "" /\ e.res.off = e.src.off /\ SameSeq(TRUE, e.res.cells, Rev(e.src.cells))
+  ELSE IF e.op = "compose" /\ ComposeDefined([off |-> e.src.off, cells |-> e.src.cells, circular |-> FALSE], e.fs)
+          /\ \E k \in 1..Len(e.fs) : e.fs[k].o = -1 THEN e.panic = "" /\ e.err # ""
+  ELSE JudgeCall(e) = ""
+
 Step ==
   /\ l <= Len(Trace) /\ l' = l + 1
-  /\ drift' = IF Trace[l].ev = "ext" /\ ~ExtAgrees(Trace[l]) THEN Append(drift, l) ELSE drift
+  /\ drift' = IF (Trace[l].ev = "ext" /\ ~ExtAgrees(Trace[l])) \/ (Trace[l].ev = "qcall" /\ ~QCallAgrees(Trace[l])) THEN Append(drift, l) ELSE drift
   /\ LET e == Trace[l] IN
-     IF e.ev = "ext" THEN UNCHANGED <<g, ok, fails>>
+     IF e.ev \in {"ext", "qcall"} THEN UNCHANGED <<g, ok, fails>>
      ELSE IF e.ev = "emptyprobe" THEN
        \* C05 at length 0: RevComp, Reverse and Clone of an empty sequence / alignment do nothing but set the strand
        /\ UNCHANGED <<g, ok>>
